@@ -62,12 +62,8 @@ def bytesVal (bs : List Nat) : Nat := bs.foldl (fun acc b => acc * 256 + b) 0
 /-- value of a hex digit string (no prefix), most significant first -/
 def hexStrVal (s : Str) : Nat := s.foldl (fun acc c => acc * 16 + hexVal c) 0
 
-/-- `big.Int.SetString(s, 16)` accepts: optional sign, then one or more hex digits (underscores only with base 0). -/
-def isBigHex (s : Str) : Bool :=
-  let t := match s with
-    | '+' :: r => r
-    | '-' :: r => r
-    | _ => s
-  !t.isEmpty && t.all isHexChar
+/-- what `MsgRecord.ValidateBasic` accepts behind the "0x" of a token id: one or more hex digits and nothing else
+(`big.Int.SetString(s, 16)` alone would also take a sign, which every later reader of the string ignores - finding F22). -/
+def isBigHex (s : Str) : Bool := !s.isEmpty && s.all isHexChar
 
 end Settlus
